@@ -20,12 +20,16 @@ Local Open Scope N_scope.
 Definition wstr := list N.
 
 (* ------------------------------------------------------------------ 13.2.3.5 preprocessing the input stream *)
-Fixpoint preprocess (s : list N) : list N :=
+(* [after_cr]: the previous character was a CR (already turned into LF): an LF now is the second half of a CR LF pair *)
+Fixpoint preprocess_from (after_cr : bool) (s : list N) : list N :=
   match s with
   | [] => []
-  | 13 :: t => 10 :: match t with 10 :: t' => preprocess t' | _ => preprocess t end
-  | c :: t => c :: preprocess t
+  | c :: t =>
+    if after_cr && (c =? 10) then preprocess_from false t
+    else if c =? 13 then 10 :: preprocess_from true t
+    else c :: preprocess_from false t
   end.
+Definition preprocess (s : list N) : list N := preprocess_from false s.
 
 (* ------------------------------------------------------------------ character classes *)
 Definition w_in (c : N) (l : list N) : bool := existsb (N.eqb c) l.
@@ -190,8 +194,8 @@ Definition stop_eof (cf : wconf) : wres := WStop (emit WTEof cf).
 (* RCDATA / RAWTEXT less-than sign state *)
 Definition lt_sign (back end_open : wstate) (cf : wconf) (input : list N) : wres :=
   match input with
-  | 47 :: rest => WCont (sw end_open (cf <| wtmp := [] |>)) rest
-  | _ => WCont (sw back (emitc 60 cf)) input
+  | c :: rest => if c =? 47 then WCont (sw end_open (cf <| wtmp := [] |>)) rest else WCont (sw back (emitc 60 cf)) input
+  | [] => WCont (sw back (emitc 60 cf)) input
   end.
 (* ... end tag open state *)
 Definition end_tag_open (back name_state : wstate) (cf : wconf) (input : list N) : wres :=
@@ -389,22 +393,24 @@ Definition wstep (env : wenv) (cf : wconf) (input : list N) : wres :=
   (* 13.2.5.15 Script data less-than sign state *)
   | WScriptLt =>
     match input with
-    | 47 :: rest => WCont (sw WScriptEndTagOpen (cf <| wtmp := [] |>)) rest
-    | 33 :: rest => WCont (emitc 33 (emitc 60 (sw WScriptEscapeStart cf))) rest
-    | _ => WCont (sw WScriptData (emitc 60 cf)) input
+    | c :: rest =>
+      if c =? 47 then WCont (sw WScriptEndTagOpen (cf <| wtmp := [] |>)) rest
+      else if c =? 33 then WCont (emitc 33 (emitc 60 (sw WScriptEscapeStart cf))) rest
+      else WCont (sw WScriptData (emitc 60 cf)) input
+    | [] => WCont (sw WScriptData (emitc 60 cf)) input
     end
   | WScriptEndTagOpen => end_tag_open WScriptData WScriptEndTagName cf input
   | WScriptEndTagName => end_tag_name env WScriptData cf input
   (* 13.2.5.18 / 19 Script data escape start (dash) state *)
   | WScriptEscapeStart =>
     match input with
-    | 45 :: rest => WCont (emitc 45 (sw WScriptEscapeStartDash cf)) rest
-    | _ => WCont (sw WScriptData cf) input
+    | c :: rest => if c =? 45 then WCont (emitc 45 (sw WScriptEscapeStartDash cf)) rest else WCont (sw WScriptData cf) input
+    | [] => WCont (sw WScriptData cf) input
     end
   | WScriptEscapeStartDash =>
     match input with
-    | 45 :: rest => WCont (emitc 45 (sw WScriptEscapedDashDash cf)) rest
-    | _ => WCont (sw WScriptData cf) input
+    | c :: rest => if c =? 45 then WCont (emitc 45 (sw WScriptEscapedDashDash cf)) rest else WCont (sw WScriptData cf) input
+    | [] => WCont (sw WScriptData cf) input
     end
   (* 13.2.5.20 Script data escaped state *)
   | WScriptEscaped =>
@@ -478,8 +484,10 @@ Definition wstep (env : wenv) (cf : wconf) (input : list N) : wres :=
     end
   | WScriptDoubleEscapedLt =>
     match input with
-    | 47 :: rest => WCont (emitc 47 (sw WScriptDoubleEscapeEnd (cf <| wtmp := [] |>))) rest
-    | _ => WCont (sw WScriptDoubleEscaped cf) input
+    | c :: rest =>
+      if c =? 47 then WCont (emitc 47 (sw WScriptDoubleEscapeEnd (cf <| wtmp := [] |>))) rest
+      else WCont (sw WScriptDoubleEscaped cf) input
+    | [] => WCont (sw WScriptDoubleEscaped cf) input
     end
   | WScriptDoubleEscapeEnd => double_escape WScriptEscaped WScriptDoubleEscaped WScriptDoubleEscaped cf input
   (* 13.2.5.32 Before attribute name state *)
@@ -566,28 +574,29 @@ Definition wstep (env : wenv) (cf : wconf) (input : list N) : wres :=
     end
   (* 13.2.5.42 Markup declaration open state *)
   | WMarkupDeclarationOpen =>
-    match input with
-    | 45 :: 45 :: rest => WCont (sw WCommentStart (cf <| wcomment := [] |>)) rest
-    | _ =>
+    if is_prefix [45; 45] input then WCont (sw WCommentStart (cf <| wcomment := [] |>)) (skipn 2 input)
+    else
       if lower_eq (firstn 7 input) [100; 111; 99; 116; 121; 112; 101] then WCont (sw WDoctype cf) (skipn 7 input)
       else if is_prefix [91; 67; 68; 65; 84; 65; 91] input then
         if e_foreign env then WCont (sw WCdataSection cf) (skipn 7 input)
         else WCont (sw WBogusComment (cf <| wcomment := [91; 67; 68; 65; 84; 65; 91] |>)) (skipn 7 input)
       else WCont (sw WBogusComment (cf <| wcomment := [] |>)) input
-    end
   (* 13.2.5.43 Comment start state *)
   | WCommentStart =>
     match input with
-    | 45 :: rest => WCont (sw WCommentStartDash cf) rest
-    | 62 :: rest => WCont (emit_comment (sw WData cf)) rest
-    | _ => WCont (sw WComment cf) input
+    | c :: rest =>
+      if c =? 45 then WCont (sw WCommentStartDash cf) rest
+      else if c =? 62 then WCont (emit_comment (sw WData cf)) rest
+      else WCont (sw WComment cf) input
+    | [] => WCont (sw WComment cf) input
     end
   | WCommentStartDash =>
     match input with
     | [] => WStop (emit WTEof (emit_comment cf))
-    | 45 :: rest => WCont (sw WCommentEnd cf) rest
-    | 62 :: rest => WCont (emit_comment (sw WData cf)) rest
-    | _ => WCont (sw WComment (comment_push [45] cf)) input
+    | c :: rest =>
+      if c =? 45 then WCont (sw WCommentEnd cf) rest
+      else if c =? 62 then WCont (emit_comment (sw WData cf)) rest
+      else WCont (sw WComment (comment_push [45] cf)) input
     end
   (* 13.2.5.45 Comment state *)
   | WComment =>
@@ -601,41 +610,44 @@ Definition wstep (env : wenv) (cf : wconf) (input : list N) : wres :=
     end
   | WCommentLt =>
     match input with
-    | 33 :: rest => WCont (sw WCommentLtBang (comment_push [33] cf)) rest
-    | 60 :: rest => WCont (comment_push [60] cf) rest
-    | _ => WCont (sw WComment cf) input
+    | c :: rest =>
+      if c =? 33 then WCont (sw WCommentLtBang (comment_push [33] cf)) rest
+      else if c =? 60 then WCont (comment_push [60] cf) rest
+      else WCont (sw WComment cf) input
+    | [] => WCont (sw WComment cf) input
     end
   | WCommentLtBang =>
     match input with
-    | 45 :: rest => WCont (sw WCommentLtBangDash cf) rest
-    | _ => WCont (sw WComment cf) input
+    | c :: rest => if c =? 45 then WCont (sw WCommentLtBangDash cf) rest else WCont (sw WComment cf) input
+    | [] => WCont (sw WComment cf) input
     end
   | WCommentLtBangDash =>
     match input with
-    | 45 :: rest => WCont (sw WCommentLtBangDashDash cf) rest
-    | _ => WCont (sw WCommentEndDash cf) input
+    | c :: rest => if c =? 45 then WCont (sw WCommentLtBangDashDash cf) rest else WCont (sw WCommentEndDash cf) input
+    | [] => WCont (sw WCommentEndDash cf) input
     end
   | WCommentLtBangDashDash => WCont (sw WCommentEnd cf) input
   | WCommentEndDash =>
     match input with
     | [] => WStop (emit WTEof (emit_comment cf))
-    | 45 :: rest => WCont (sw WCommentEnd cf) rest
-    | _ => WCont (sw WComment (comment_push [45] cf)) input
+    | c :: rest => if c =? 45 then WCont (sw WCommentEnd cf) rest else WCont (sw WComment (comment_push [45] cf)) input
     end
   | WCommentEnd =>
     match input with
     | [] => WStop (emit WTEof (emit_comment cf))
-    | 62 :: rest => WCont (emit_comment (sw WData cf)) rest
-    | 33 :: rest => WCont (sw WCommentEndBang cf) rest
-    | 45 :: rest => WCont (comment_push [45] cf) rest
-    | _ => WCont (sw WComment (comment_push [45; 45] cf)) input
+    | c :: rest =>
+      if c =? 62 then WCont (emit_comment (sw WData cf)) rest
+      else if c =? 33 then WCont (sw WCommentEndBang cf) rest
+      else if c =? 45 then WCont (comment_push [45] cf) rest
+      else WCont (sw WComment (comment_push [45; 45] cf)) input
     end
   | WCommentEndBang =>
     match input with
     | [] => WStop (emit WTEof (emit_comment cf))
-    | 45 :: rest => WCont (sw WCommentEndDash (comment_push [45; 45; 33] cf)) rest
-    | 62 :: rest => WCont (emit_comment (sw WData cf)) rest
-    | _ => WCont (sw WComment (comment_push [45; 45; 33] cf)) input
+    | c :: rest =>
+      if c =? 45 then WCont (sw WCommentEndDash (comment_push [45; 45; 33] cf)) rest
+      else if c =? 62 then WCont (emit_comment (sw WData cf)) rest
+      else WCont (sw WComment (comment_push [45; 45; 33] cf)) input
     end
   (* 13.2.5.53 DOCTYPE state *)
   | WDoctype =>
@@ -730,14 +742,16 @@ Definition wstep (env : wenv) (cf : wconf) (input : list N) : wres :=
     end
   | WCdataSectionBracket =>
     match input with
-    | 93 :: rest => WCont (sw WCdataSectionEnd cf) rest
-    | _ => WCont (sw WCdataSection (emitc 93 cf)) input
+    | c :: rest => if c =? 93 then WCont (sw WCdataSectionEnd cf) rest else WCont (sw WCdataSection (emitc 93 cf)) input
+    | [] => WCont (sw WCdataSection (emitc 93 cf)) input
     end
   | WCdataSectionEnd =>
     match input with
-    | 93 :: rest => WCont (emitc 93 cf) rest
-    | 62 :: rest => WCont (sw WData cf) rest
-    | _ => WCont (sw WCdataSection (emitc 93 (emitc 93 cf))) input
+    | c :: rest =>
+      if c =? 93 then WCont (emitc 93 cf) rest
+      else if c =? 62 then WCont (sw WData cf) rest
+      else WCont (sw WCdataSection (emitc 93 (emitc 93 cf))) input
+    | [] => WCont (sw WCdataSection (emitc 93 (emitc 93 cf))) input
     end
   (* 13.2.5.72 Character reference state *)
   | WCharRef =>
